@@ -329,6 +329,8 @@ theorem stepOp_testaments {r : Realm} (hi : RealmInv r) (h : TestamentsAttached 
   cases op with
   | join k isLocal details roles cap =>
     rw [stepOp_join]
+    split
+    · exact h
     intro x hx
     obtain ⟨c, hc, hk⟩ := h x hx
     exact ⟨c, List.mem_append_left _ hc, hk⟩
@@ -339,6 +341,8 @@ theorem stepOp_testaments {r : Realm} (hi : RealmInv r) (h : TestamentsAttached 
       (fun c => by split <;> rfl))
   | drop k =>
     rw [stepOp_drop]
+    split
+    · exact h
     split
     · exact h
     · exact h.of_same rfl rfl
